@@ -21,9 +21,10 @@ CONSTANTS MaxOps,        \* operations per history
 VARIABLES a,    \* the histogram: [edges, bins, oor, cache]
           a0,   \* ghost: the histogram at the start
           n,    \* operations made
+          held,     \* ghost: the operands of the last `c = a.add(b)` that the caller still holds (they must never change)
           excuse,   \* ghost: the stored scale may be out of date for a documented reason (set_nevents after it was stored)
           h     \* ghost: history of operations with their results (hidden by the VIEW of the MC configs)
-vars == <<a, a0, n, excuse, h>>
+vars == <<a, a0, n, held, excuse, h>>
 view == <<a, n, excuse>>
 
 \* ---- initial histograms -------------------------------------------------
@@ -34,7 +35,7 @@ All3(E, C) == {Mk(E, b, o) : b \in [1..NB(E[1]) -> [1..NB(E[2]) -> [1..NB(E[3]) 
 Ints(S) == {RI(k) : k \in S}
 Half == <<1, 2>>
 HistsQuick ==
-  All1(<<<<0, 2>>>>, Ints(-2..3) \cup {Half}) \cup All1(<<<<0, 2, 6>>>>, Ints(-2..3) \cup {Half})
+  All1(<<<<0, 2>>>>, Ints(-2..3) \cup {Half}) \cup All1(<<<<0, 2, 6>>>>, Ints({-2, 0, 1, 3}) \cup {Half})
   \cup All1(<<<<0, 1, 4, 6>>>>, Ints({-1, 2}))
   \cup All2(<<<<0, 2, 6>>, <<0, 1, 4>>>>, Ints({-1, 2}))
   \cup All3(<<<<0, 2>>, <<0, 1, 4>>, <<2, 4, 8>>>>, Ints({0, 1}))
@@ -79,10 +80,11 @@ TolHists == {Hist(E, IotaB(E, 1, 0, 0), RI(0), NoneR) : E \in TolMeshes}
 HistsSeq == {Hist(<<<<0, 2, 6>>>>, <<RI(1), <<3, 2>>>>, RI(3), NoneR),
              Hist(<<<<0, 2>>, <<0, 1, 4>>>>, <<<<RI(2), RI(-1)>>>>, RI(0), NoneR),
              Hist(<<<<0, 2>>, <<0, 1>>, <<2, 4, 8>>>>, <<<<<<RI(1), RI(1)>>>>>>, RI(1), NoneR)}
+HistsSeq2 == {x \in HistsSeq : Len(x.edges) <= 2}
 TargetsSeq == {<<2, 1>>}
 NevSeq == {<<5, 1>>}
 WeightsSeq == {2}
-Init == a \in (IF SeqOnly THEN HistChoices ELSE HistChoices \cup TolHists) /\ a0 = a /\ n = 0 /\ excuse = FALSE /\ h = <<>>
+Init == a \in (IF SeqOnly THEN HistChoices ELSE HistChoices \cup TolHists) /\ a0 = a /\ n = 0 /\ held = <<>> /\ excuse = FALSE /\ h = <<>>
 
 NoHist == Hist(<<>>, <<>>, NoneR, NoneR)
 \* fresh: the stored scale (if any) is the integral, i.e. the documented precondition of rescaling holds
@@ -94,25 +96,37 @@ LogT(op, s, w, incl, rc, kind, ok, exc, val, b, r, tol, pert) == LogI(op, s, w, 
 Log(op, s, w, incl, rc, kind, ok, exc, val, b, r) == LogT(op, s, w, incl, rc, kind, ok, exc, val, b, r, NoTol, NoPert)
 
 Op == n < MaxOps /\ n' = n + 1 /\ a0' = a0
+Keep == held' = held
 \* hist.scale() / hist.scale(recompute=True)
 GetScale == Op /\ \E rc \in BOOLEAN :
   LET v == CurScale(a, rc) IN
-  /\ a' = [a EXCEPT !.cache = v]
+  /\ a' = [a EXCEPT !.cache = v] /\ Keep
   /\ excuse' = (IF rc \/ IsNone(a.cache) THEN FALSE ELSE excuse)
   /\ Log("getscale", NoneR, 0, FALSE, rc, "", TRUE, "", v, NoHist, NoHist)
-\* hist.scale(s), ScaleTo(s)(hist), scale_to(s, [hist])
-Scale == Op /\ \E s \in Targets :
+\* hist.scale(s), ScaleTo(s)(hist), scale_to(s, [hist]), GroupScale(s)([hist]).
+\* allow: scale_to / GroupScale with allow_zero_scale = allow_unknown_scale = True: "the corresponding errors are
+\* ignored and the structure remains unscaled" (only differs from the plain call when the scale is zero)
+Scale == Op /\ \E s \in Targets : \E allow \in (IF RIsZero(CurScale(a, FALSE)) THEN BOOLEAN ELSE {FALSE}) :
   LET r == ScaleOp(a, s) IN
-  /\ a' = r.h
+  /\ a' = r.h /\ Keep
   /\ excuse' = (IF IsNone(a.cache) THEN FALSE ELSE excuse)
-  /\ Log("scale", s, 0, FALSE, FALSE, "", r.ok, r.exc, NoneR, NoHist, NoHist)
-\* hist.set_nevents(nev, include_out_of_range=incl); the log carries get_nevents(incl) afterwards
+  /\ Log("scale", s, 0, FALSE, FALSE, IF allow THEN "allow" ELSE "", IF allow THEN TRUE ELSE r.ok,
+         IF allow THEN "skipped" ELSE r.exc, NoneR, NoHist, NoHist)
+\* hist.set_nevents(nev, include_out_of_range=incl); the log carries get_nevents(incl) afterwards.
+\* "Rescaling a histogram with zero entries raises a LenaValueError" (nothing changes then)
 SetNevents == Op /\ \E nev \in NevTargets, incl \in BOOLEAN :
-  /\ ~RIsZero(Nevents(a.bins, a.oor, a.edges, incl))
-  /\ LET r == SetNeventsOp(a, nev, incl) IN
-     /\ a' = r.h
-     /\ excuse' = (excuse \/ ~IsNone(a.cache))       \* "one must explicitly recompute the scale if it was computed before"
-     /\ Log("set_nevents", nev, 0, incl, FALSE, "", TRUE, "", Nevents(r.h.bins, r.h.oor, r.h.edges, incl), NoHist, NoHist)
+  LET zero == RIsZero(Nevents(a.bins, a.oor, a.edges, incl))
+      r == IF zero THEN Raise("LenaValueError", a) ELSE SetNeventsOp(a, nev, incl) IN
+  /\ a' = r.h /\ Keep
+  /\ excuse' = (IF zero THEN excuse ELSE (excuse \/ ~IsNone(a.cache)))    \* "one must explicitly recompute the scale if it was computed before"
+  /\ Log("set_nevents", nev, 0, incl, FALSE, "", r.ok, r.exc, Nevents(r.h.bins, r.h.oor, r.h.edges, incl), NoHist, NoHist)
+\* hist_to_graph(hist, scale=True | number | None): "If it is True, it uses the histogram scale" - which reads
+\* and stores the scale like scale(); the graph's scale is the log's val
+ToGraphScale == Op /\ \E mode \in (IF SeqOnly THEN {"true"} ELSE {"true", "num", "none"}) :
+  LET v == IF mode = "true" THEN CurScale(a, FALSE) ELSE IF mode = "num" THEN <<7, 2>> ELSE NoneR IN
+  /\ a' = (IF mode = "true" THEN [a EXCEPT !.cache = v] ELSE a) /\ Keep
+  /\ excuse' = (IF mode = "true" /\ IsNone(a.cache) THEN FALSE ELSE excuse)
+  /\ Log("to_graph_scale", NoneR, 0, FALSE, FALSE, mode, TRUE, "", v, NoHist, NoHist)
 \* hist.add(other, weight): a new histogram, the operands stay.  into: the harness goes on with the sum
 \* (c = a.add(b, w); then c.scale() ...): a new histogram whose scale was never computed
 Add == Op /\ \E kind \in OtherKinds, w \in AddWeights, into \in BOOLEAN :
@@ -122,6 +136,7 @@ Add == Op /\ \E kind \in OtherKinds, w \in AddWeights, into \in BOOLEAN :
          r == AddOp(a, b, RI(w)) IN
      /\ into => r.ok
      /\ a' = (IF into THEN r.h ELSE a)
+     /\ held' = (IF into THEN <<a, b>> ELSE held)
      /\ excuse' = (IF into THEN FALSE ELSE excuse)
      /\ LogI("add", NoneR, w, FALSE, FALSE, kind, r.ok, r.exc, NoneR, b, r.h, NoTol, NoPert, into)
 
@@ -141,14 +156,14 @@ Perts(x, tol) ==
             ELSE IF tol.kind = "abs" THEN {} ELSE {<<1, 2>>, <<1, 1>>, <<2, 1>>})}
 PertOK(x, pert) == IF pert.kind = "none" THEN TRUE ELSE pert.pos \in Positions(x.edges[pert.axis])
 IsTolHist(x) == x.oor = RI(0) /\ x.bins = IotaB(x.edges, 1, 0, 0)
-AddTol == Op /\ ~SeqOnly /\ IsTolHist(a) /\ excuse' = excuse /\ \E tol \in TolKinds : \E pert \in Perts(a, tol) :
+AddTol == Op /\ ~SeqOnly /\ IsTolHist(a) /\ excuse' = excuse /\ Keep /\ \E tol \in TolKinds : \E pert \in Perts(a, tol) :
   /\ PertOK(a, pert)
   /\ LET b == Hist(a.edges, ScaleB(a.bins, Len(a.edges), RI(3)), RI(1), NoneR)
          r == AddTolOp(a, b, RI(2), pert, tol) IN
      /\ a' = a
      /\ LogT("add_tol", NoneR, 2, FALSE, FALSE, "", r.ok, r.exc, NoneR, b, r.h, tol, pert)
 
-Next == GetScale \/ Scale \/ SetNevents \/ Add \/ AddTol
+Next == GetScale \/ Scale \/ SetNevents \/ ToGraphScale \/ Add \/ AddTol
 Spec == Init /\ [][Next]_vars
 
 (***************************************************************************)
@@ -158,17 +173,17 @@ L == h'[Len(h')]
 IsOp(op) == Len(h') = Len(h) + 1 /\ L.op = op
 TypeOK == ShapeOK(a.bins, a.edges, 1) /\ AllIncreasing(a.edges)
 \* rescaling to s multiplies exactly the contents (bins and n_out_of_range) by s / old scale, edges untouched
-ScaleExact == [][(IsOp("scale") /\ L.ok) =>
+ScaleExact == [][(IsOp("scale") /\ L.ok /\ L.exc = "") =>
                   LET old == CurScale(a, FALSE) IN
                   /\ \A c \in Cells(a.edges) : RMul(Get(a'.bins, c), old) = RMul(Get(a.bins, c), L.s)
                   /\ RMul(a'.oor, old) = RMul(a.oor, L.s)
                   /\ a'.edges = a.edges /\ ShapeOK(a'.bins, a.edges, 1)]_vars
 \* ... and makes the recomputed scale equal s (when the stored scale was current, as the documentation requires)
-ScaleRecomputed == [][(IsOp("scale") /\ L.ok /\ L.fresh) =>
+ScaleRecomputed == [][(IsOp("scale") /\ L.ok /\ L.exc = "" /\ L.fresh) =>
                        /\ Integral(a'.bins, a'.edges) = L.s
                        /\ CurScale(a', FALSE) = L.s /\ CurScale(a', TRUE) = L.s]_vars
 \* ... and raises LenaValueError for a zero scale (nothing rescaled)
-ZeroScaleRaises == [][IsOp("scale") =>
+ZeroScaleRaises == [][(IsOp("scale") /\ L.kind # "allow") =>
                        /\ L.ok <=> ~RIsZero(CurScale(a, FALSE))
                        /\ ~L.ok => (L.exc = "LenaValueError" /\ a'.bins = a.bins /\ a'.oor = a.oor /\ a'.edges = a.edges)]_vars
 \* reading the scale changes nothing but the stored scale; recompute gives the integral
@@ -176,7 +191,22 @@ GetScalePure == [][IsOp("getscale") =>
                     /\ a'.bins = a.bins /\ a'.oor = a.oor /\ a'.edges = a.edges
                     /\ L.rc => L.val = Integral(a.bins, a.edges)]_vars
 \* set_nevents(n) makes get_nevents() equal n; n_out_of_range is rescaled together with the bins
-NeventsSet == [][IsOp("set_nevents") =>
+\* ... unless the caller allowed a zero scale: then nothing is rescaled and nothing is raised
+AllowZeroSkips == [][(IsOp("scale") /\ L.kind = "allow") =>
+                      /\ L.ok /\ RIsZero(CurScale(a, FALSE))
+                      /\ a'.bins = a.bins /\ a'.oor = a.oor /\ a'.edges = a.edges]_vars
+NeventsZeroRaises == [][IsOp("set_nevents") =>
+                         /\ L.ok <=> ~RIsZero(Nevents(a.bins, a.oor, a.edges, L.incl))
+                         /\ ~L.ok => (L.exc = "LenaValueError" /\ a' = a)]_vars
+\* hist_to_graph(scale=...) never changes the contents; scale=True gives (and stores) what scale() gives
+ToGraphScalePure == [][IsOp("to_graph_scale") =>
+                        /\ a'.bins = a.bins /\ a'.oor = a.oor /\ a'.edges = a.edges
+                        /\ L.kind = "true" => (L.val = CurScale(a, FALSE) /\ a'.cache = L.val)
+                        /\ L.kind # "true" => a' = a]_vars
+\* whatever is done to the sum, the operands that produced it stay as they were
+HeldFrozen == [][\/ held' = held
+                 \/ (IsOp("add") /\ L.into /\ held' = <<a, L.b>>)]_vars
+NeventsSet == [][(IsOp("set_nevents") /\ L.ok) =>
                   /\ L.val = L.s
                   /\ Nevents(a'.bins, a'.oor, a'.edges, L.incl) = L.s
                   /\ a'.edges = a.edges
